@@ -319,7 +319,7 @@ pub fn run(tier: Tier, seed: u64) -> i32 {
         let sp = space(k);
         let n = sp.count(k);
         // every valid program, and two malformed variants of it (verdict must stay "rejected")
-        let label = format!("programs with {k} statements (token-boundary alphabet: literals in every radix, multi-character operators, identifiers that start like keywords) and 4 malformed variants of each x all layout rewritings with <= {} deviations", if k <= 2 { 2 } else { 1 });
+        let label = format!("programs with {k} statements (token-boundary alphabet: literals in every radix, multi-character operators, identifiers that start like keywords) and 4 malformed variants of each x all layout rewritings with <= {} deviations", if k <= 2 { "2" } else if tier == Tier::Thorough { "2 (valid programs) / 1 (malformed variants)" } else { "1" });
         let st = par_range(&label, n * 5, &deadline, |u, st| {
             let idx = u / 5;
             let variant = u % 5;
@@ -350,7 +350,8 @@ pub fn run(tier: Tier, seed: u64) -> i32 {
                 _ => {}
             }
             let devs = singles(&ls);
-            let layouts = up_to(&devs, if k <= 2 { 2 } else { 1 });
+            // thorough: two deviations also for the valid programs of three statements
+            let layouts = up_to(&devs, if k <= 2 || (tier == Tier::Thorough && variant == 0) { 2 } else { 1 });
             examine(st, u, k, variant, &ls, &layouts, &sigs, &script);
         });
         total.merge(st);
